@@ -315,8 +315,13 @@ class C03(Check):
         """token-level form of a case: per macro (via, mtoks, name, isfun, params, variadic, btoks); input tokens"""
         ms = []
         for m in c["macros"]:
+            via, hl = 0, 0
             if is_D(m):
-                mt = lex(dash_d_text(m))
+                # the same split as macro_from_definition_string (str.partition is not part of the model)
+                hd, sep, value = dash_d_text(m).partition("=")
+                mt = lex(hd + " " + value)
+                hl = len(lex(hd))
+                via = 1 if sep else 2
             else:
                 mt = lex(define_text(m))[2:]
             params = []
@@ -334,7 +339,7 @@ class C03(Check):
             body = m["body"]
             if body is None:
                 body = "1" if is_D(m) else ""
-            ms.append([is_D(m), [tok_enc(t) for t in mt], m["name"].encode(), m["params"] is not None,
+            ms.append([via, hl, [tok_enc(t) for t in mt], m["name"].encode(), m["params"] is not None,
                        [p.encode() for p in params], variadic, [tok_enc(t) for t in lex(body)]])
         return [ms, [tok_enc(t) for t in lex(c["input"])]]
 
@@ -456,12 +461,6 @@ class C03(Check):
 
     def classify(self, case, impl_ans, spec_ans):
         ms = case["macros"]
-        # (1) -DNAME=value whose value begins with '=' : "NAME==..." is lexed as '==' and rejected
-        if impl_ans[0] == "DefErr" and impl_ans[2] == "ParseError":
-            m = ms[impl_ans[1]]
-            if is_D(m) and (m["body"] or "").lstrip().startswith("="):
-                return "dashD-value-starts-with-equals"
-            return None
         # (0) the 200-level backstop: only tables with at least max_level-1 macros can reach it
         if impl_ans[:2] == ["Ok", ["0"]] and len(ms) >= self.max_level() - 1:
             return "depth-limit-200"
